@@ -383,7 +383,7 @@ fn c02_mmn_checkpin(kc: usize, ksq: u8) {
     kani::cover!(pin != 0);
 }
 
-// @ob id=O2.2a props=C02 tier=quick kind=proof weight=light fn="Board::make_move" desc="second entry point, ANY prior content of the output board: same placement/side/rights/en-passant/material contract as O2.1a (symbolic king); &self untouched"
+// @ob id=O2.2a props=C02,C05 tier=quick kind=proof weight=light fn="Board::make_move" desc="second entry point, ANY prior content of the output board: same placement/side/rights/en-passant/material contract as O2.1a (symbolic king); &self untouched"
 #[kani::proof]
 #[kani::unwind(9)]
 #[kani::stub(crate::magic::get_bishop_rays, crate::vstubs::no_rays)]
@@ -593,4 +593,163 @@ fn c09_single_component() {
         b.en_passant = e;
     }
     assert!(a.get_hash() != b.get_hash());
+}
+
+// ------------------------------------------------------------------------------------------ validation (C05, C07)
+
+pub(crate) fn lockstep(b: &Board) -> bool {
+    (b.color_combined[0].0 | b.color_combined[1].0) == (b.pieces[0].0 | b.pieces[1].0 | b.pieces[2].0 | b.pieces[3].0 | b.pieces[4].0 | b.pieces[5].0)
+}
+
+/// the contract of Board::is_sane (O5.1) as an executable stand-in
+pub(crate) fn is_sane_spec(b: &Board) -> bool {
+    sp::s_sane(&to_pos(b), b.combined.0)
+}
+
+// @ob id=O5.1 props=C05,C07 tier=quick kind=proof weight=light fn="Board::is_sane" desc="for EVERY board whose colour boards cover exactly the piece boards (the lock-step invariant Board::xor maintains; all other fields arbitrary bit patterns, symbolic kings): is_sane returns true exactly when the bitboards are consistent, there is one king per side, no side has more than 16 men, a recorded en-passant square holds a pawn of the side that just moved, the side not to move is not in check (flood-fill attack spec; kings adjacent counts as attacked), and every castle right is backed by king and rook on their home squares; never panics, all unchecked reads in bounds. update_pin_info is used through its contract O3.1"
+#[kani::proof]
+#[kani::unwind(9)]
+#[kani::stub(crate::board::Board::update_pin_info, upi_spec)]
+#[kani::stub(crate::magic::get_king_moves, crate::vstubs::king_moves_cf)]
+#[kani::stub(crate::magic::get_rank, crate::vstubs::rank_cf)]
+#[kani::stub(crate::magic::get_file, crate::vstubs::file_cf)]
+fn c05_is_sane_exact() {
+    let b = any_raw_board();
+    // lock-step invariant of every board the API can construct (all placement changes go through Board::xor,
+    // O3.3a): a square carries a colour exactly when it carries a piece.  Everything else is_sane checks itself.
+    kani::assume(lockstep(&b));
+    let r = b.is_sane();
+    assert!(r == is_sane_spec(&b));
+    kani::cover!(r);
+    kani::cover!(r && b.en_passant.is_some());
+}
+
+// @ob id=O7.4 props=C07,C01 tier=quick kind=proof weight=light fn="Board::is_sane,MoveList capacity" desc="every board the gatekeeper accepts leaves room in the fixed-capacity move list: men of either side + 2 (one slot per man plus at most two en-passant captures — the slot bound the move-generation obligations rely on for every push_unchecked) never exceeds the real capacity of NoDrop<ArrayVec<SquareAndBitBoard,N>>; for EVERY raw board"
+#[kani::proof]
+#[kani::unwind(9)]
+#[kani::stub(crate::board::Board::update_pin_info, upi_spec)]
+#[kani::stub(crate::magic::get_king_moves, crate::vstubs::king_moves_cf)]
+#[kani::stub(crate::magic::get_rank, crate::vstubs::rank_cf)]
+#[kani::stub(crate::magic::get_file, crate::vstubs::file_cf)]
+fn c07_movelist_room() {
+    let b = any_raw_board();
+    kani::assume(lockstep(&b));
+    if b.is_sane() {
+        let ml: crate::movegen::MoveList = nodrop::NoDrop::new(arrayvec::ArrayVec::new());
+        let cap = ml.capacity() as u32;
+        assert!(b.color_combined[0].popcnt() + 2 <= cap);
+        assert!(b.color_combined[1].popcnt() + 2 <= cap);
+    }
+}
+
+// @ob id=S1.5 props=C07,C05 tier=quick kind=lemma fn="spec: s_valid,s_sane" desc="code-independent: every valid chess position (the quantifier of C01/C05: one king each, <=16 men, <=8 pawns, no pawn on rank 1/8, side not to move not in check, rights backed, en-passant state consistent) satisfies the gatekeeper specification s_sane — so validation succeeds for every valid position once is_sane == s_sane (O5.1)"
+#[kani::proof]
+#[kani::unwind(9)]
+fn spec_valid_implies_sane() {
+    let b = any_raw_board();
+    let pos = to_pos(&b);
+    kani::assume(sp::s_valid(&pos));
+    assert!(sp::s_sane(&pos, pos.occ()));
+}
+
+// @ob id=S5.1 props=C05,C01 tier=quick kind=lemma weight=light fn="spec: s_valid_core,s_legal,s_apply" desc="code-independent step lemma behind 'legal play stays within valid positions': for every valid position (cardinality clauses aside) and every legal move, the rule-prescribed successor is again valid — one king per side, no pawn on the first or last rank, castle rights still backed, en-passant state consistent, and the side that just moved is not in check. With O2.1a/O2.2a (code result == successor), O5.1 and S1.5 the library's own sanity check accepts every reachable position; the cardinality clauses follow from the structural monotonicity clauses of O2.1a"
+#[kani::proof]
+#[kani::unwind(9)]
+fn spec_legal_step_keeps_valid() {
+    let b = any_raw_board();
+    let pos = to_pos(&b);
+    kani::assume(sp::s_valid_core(&pos));
+    let mv = to_mv(any_move());
+    kani::assume(sp::s_legal(&pos, &mv));
+    let q = sp::s_apply(&pos, &mv);
+    assert!(sp::s_valid_core(&q));
+    kani::cover!(sp::s_is_castle(&pos, &mv));
+    kani::cover!(q.ep.is_some());
+}
+
+pub(crate) fn any_builder() -> BoardBuilder {
+    let mut bb = BoardBuilder::new();
+    let mut i = 0u8;
+    while i < 64 {
+        if kani::any() {
+            bb.piece(Square::new(i), any_piece(), any_color());
+        }
+        i += 1;
+    }
+    bb.side_to_move(any_color());
+    bb.castle_rights(Color::White, any_rights());
+    bb.castle_rights(Color::Black, any_rights());
+    if kani::any() {
+        bb.en_passant(Some(any_file()));
+    }
+    bb
+}
+
+// @ob id=O7.1 props=C07,C06,C08 tier=quick kind=proof weight=medium fn="TryFrom<&BoardBuilder> for Board,Board::set_ep,Board::add_castle_rights,BoardBuilder::get_en_passant" desc="for a FULLY symbolic builder (any of 13 contents on each of the 64 squares, any side, rights, en-passant file — far more men than a chess set included): the conversion never panics and never reads out of bounds; Ok(b) exactly when the gatekeeper spec holds of the assembled board; then b's placement is the builder's placement square by square, side and rights are the builder's, the en-passant square is the builder's file on the double-push rank of the side that just moved and is recorded exactly when a pawn of the side to move stands beside it, and checkers/pinned equal the from-scratch spec. Callees update_pin_info / is_sane are used through their contracts O3.1 / O5.1"
+#[kani::proof]
+#[kani::unwind(66)]
+#[kani::stub(crate::board::Board::update_pin_info, upi_spec)]
+#[kani::stub(crate::board::Board::is_sane, is_sane_spec)]
+#[kani::stub(crate::magic::get_rank, crate::vstubs::rank_cf)]
+#[kani::stub(crate::magic::get_adjacent_files, crate::vstubs::adjacent_files_cf)]
+#[kani::stub(crate::zobrist::Zobrist::piece, crate::vstubs::zobrist_probe)]
+fn c07_try_from_builder() {
+    let bb = any_builder();
+    let (pp, ps, pc, pk) = set_probe();
+    let r = Board::try_from(&bb);
+    // assemble the expected position from the builder, square by square
+    let mut pieces = [0u64; 6];
+    let mut colors = [0u64; 2];
+    let mut i = 0u8;
+    while i < 64 {
+        if let Some((p, c)) = bb[Square::new(i)] {
+            pieces[p.to_index()] |= 1u64 << i;
+            colors[c.to_index()] |= 1u64 << i;
+        }
+        i += 1;
+    }
+    let stm = bb.get_side_to_move().to_index();
+    let ep_sq: Option<u8> = match bb.get_en_passant() {
+        None => None,
+        Some(s) => {
+            let e = s.to_int();
+            // on the double-push rank of the side that just moved
+            assert!(sp::rank_of(e) == if stm == 0 { 4 } else { 3 });
+            let d = sp::bit(e);
+            if (((d << 1) & sp::NOT_A) | ((d >> 1) & sp::NOT_H)) & pieces[0] & colors[stm] != 0 {
+                Some(e)
+            } else {
+                None
+            }
+        }
+    };
+    let want = sp::Pos { pieces, colors, stm, rights: [bb.get_castle_rights(Color::White).to_index() as u8, bb.get_castle_rights(Color::Black).to_index() as u8], ep: ep_sq };
+    let ok = sp::s_sane(&want, want.occ());
+    match r {
+        Err(_) => assert!(!ok),
+        Ok(b) => {
+            assert!(ok);
+            let got = to_pos(&b);
+            assert!(got.pieces[0] == want.pieces[0] && got.pieces[1] == want.pieces[1] && got.pieces[2] == want.pieces[2]);
+            assert!(got.pieces[3] == want.pieces[3] && got.pieces[4] == want.pieces[4] && got.pieces[5] == want.pieces[5]);
+            assert!(got.colors[0] == want.colors[0] && got.colors[1] == want.colors[1] && b.combined.0 == want.occ());
+            assert!(got.stm == want.stm && got.rights[0] == want.rights[0] && got.rights[1] == want.rights[1]);
+            assert!(got.ep == want.ep);
+            let (c2, p2) = sp::s_check_pin(&got);
+            assert!(b.checkers.0 == c2 && b.pinned.0 == p2);
+            // hash, coordinate-wise: the probed key is in the field exactly when that man is on the board
+            let present = want.pieces[pp] & want.colors[pc] & sp::bit(ps) != 0;
+            assert!(b.hash == if present { pk } else { 0 });
+        }
+    }
+    kani::cover!(ok);
+}
+
+// @ob id=O7.canary props=C07,C05 tier=quick kind=canary fn="Board::is_sane" desc="deliberately false: is_sane accepts every board with one king per side — must FAIL"
+#[kani::proof]
+#[kani::unwind(9)]
+#[kani::stub(crate::board::Board::update_pin_info, upi_spec)]
+fn c07_canary() {
+    let b = any_board();
+    assert!(b.is_sane());
 }
